@@ -1,5 +1,6 @@
 import Ruint.Lemmas.Radix
 import Ruint.Model.Fmt
+import Ruint.Gen.FmtTableFacts
 import Ruint.Spec.Fmt
 
 /-! Lemmas for C09: the chunked formatter prints positional notation. -/
